@@ -516,4 +516,111 @@ static int cmd_reconstruct(const Args& a) {
 }
 static Reg r_reconstruct("reconstruct", cmd_reconstruct);
 
+// ------------------------------------------------------------------------------------------------
+// C14 — the translated INPUT FILE.  The tissue a user translates is the mesh file; with the initial triangulation enabled the cells the
+// solver receives are made by the sampling grid, the ball pivoting and the first refinement of the initializer.  translate_init writes a
+// polyhedral tissue and its translated copy, runs simulation_initializer on both with the same seeding of the clock-seeded generators and
+// demands the same outcome, the same meshes (node slots, triangles) and node positions that differ by the translation to rounding.  As in
+// the solver-level check a difference counts only when it separates two families of noise twins that each agree within themselves.
+struct InitState { std::string outcome; std::vector<std::vector<std::array<double, 3>>> X; std::vector<std::vector<char>> used; std::vector<std::vector<std::array<unsigned, 3>>> T; };
+static InitState init_run(const std::vector<Poly>& cells0, const std::vector<int>& type_ids, const std::array<double, 3>& t, uint64_t noise_seed, double noise_rel,
+                          const global_simulation_parameters& sp, const std::vector<cell_type_param_ptr>& types, const std::string& path, uint64_t rng_base) {
+    std::vector<Poly> cells = cells0; Rng ng(noise_seed, 0, 0x14c);
+    for (auto& pc : cells) for (auto& q : pc.P) for (int d = 0; d < 3; d++) { double x = q[d]; if (noise_rel > 0) x *= (1.0 + noise_rel * ng.uni(-1, 1)); q[d] = x + t[d]; }
+    const std::string text = vtk_text(cells, type_ids, {});
+    InitState st; { FILE* f = fopen(path.c_str(), "w"); if (!f) { st.outcome = "cannot_write"; return st; } fputs(text.c_str(), f); fclose(f); }
+    { std::lock_guard<std::mutex> lk(g_rng_mu); g_rng_base = rng_base; g_rng_ctr.clear(); } verif::get().rng_seed = rng_sink; verif::rng_context() = 0;
+    try { simulation_initializer init(sp, types, false); std::vector<cell_ptr> out = init.get_cell_lst(); st.outcome = "cells";
+        for (auto& cp : out) { st.X.emplace_back(); st.used.emplace_back(); st.T.emplace_back();
+            for (const node& n : cell_tester::nodes(*cp)) { st.X.back().push_back({n.pos().dx() - t[0], n.pos().dy() - t[1], n.pos().dz() - t[2]}); st.used.back().push_back(n.is_used()); }
+            for (const face& f : cell_tester::faces(*cp)) if (f.is_used()) st.T.back().push_back({cell_tester::n1(f), cell_tester::n2(f), cell_tester::n3(f)}); } }
+    catch (const intialization_exception&) { st.outcome = "initialization_exception"; }
+    catch (const std::exception& e) { st.outcome = "other_exception"; }
+    unlink(path.c_str()); return st;
+}
+static double init_compare(const InitState& a, const InitState& b) {
+    if (a.outcome != b.outcome || a.X.size() != b.X.size()) return -1; double dev = 0;
+    for (size_t k = 0; k < a.X.size(); k++) { if (a.used[k] != b.used[k] || a.T[k] != b.T[k]) return -1;
+        for (size_t i = 0; i < a.X[k].size(); i++) if (a.used[k][i]) for (int d = 0; d < 3; d++) dev = std::max(dev, std::fabs(a.X[k][i][d] - b.X[k][i][d])); }
+    return dev;
+}
+static std::string translate_init_case(const Args& a, long i, const std::string& path) {
+    Rng g(a.seed, (uint64_t)i, 0x14d); Case cs(i);
+    const int ncell = g.coin(0.5) ? 1 : g.range(2, 3); const double scale = g.coin(0.35) ? 1e-5 * g.uni(0.5, 2) : g.logu(1e-6, 1e1);
+    std::vector<Poly> cells; std::vector<int> type_ids; std::string fams; double thick_min = 1e300, area_sum = 0;
+    for (int k = 0; k < ncell; k++) { Poly m = make_family(g.range(0, 6), g); const int style = g.range(0, 2); if (style == 1) triangulate_faces(m, g, 1.0); else if (style == 2) triangulate_faces(m, g, 0.5);
+        if (!faces_star_shaped(m)) { cs.v = "skip"; return cs.line(); }
+        if (g.coin(0.7)) protate(m, gen::rot_random(g)); pscale(m, scale, scale, scale); m.thick *= scale; const double off = g.coin(0.4) ? 0.0 : g.uni(0, 10) * scale;
+        ptranslate(m, 4.5 * scale * k + off * g.uni(-1, 1), off * g.uni(-1, 1), off * g.uni(-1, 1));
+        Surf sf = surface_of(m); if (!(sf.geo.volume > 0) || !orc::check_topology(sf.T).ok) { cs.v = "skip"; return cs.line(); } area_sum += (double)sf.geo.area;
+        flip_faces(m, g, g.coin(0.5) ? 0.0 : 0.5); thick_min = std::min(thick_min, m.thick); fams += (fams.empty() ? "" : "+") + m.family; type_ids.push_back(g.range(0, 4)); cells.push_back(m); }
+    double rho = g.logu(0.06, 0.4), lmin = rho * thick_min; { const double max_nodes = a.getd("max_nodes", 900), nest = area_sum / (0.75 * lmin * lmin); if (nest > max_nodes) { lmin = std::sqrt(area_sum / (0.75 * max_nodes)); rho = lmin / thick_min; } }
+    global_simulation_parameters sp; sp.output_folder_path_ = ""; sp.input_mesh_path_ = path; sp.perform_initial_triangulation_ = true; sp.enable_edge_swap_operation_ = true;
+    sp.damping_coefficient_ = 1; sp.simulation_duration_ = 1; sp.sampling_period_ = 1; sp.time_step_ = 1e-3; sp.min_edge_len_ = lmin; sp.contact_cutoff_adhesion_ = lmin; sp.contact_cutoff_repulsion_ = lmin;
+    std::vector<cell_type_param_ptr> types; for (int t = 0; t < 5; t++) types.push_back(gen::default_cell_type(3, (short)t));
+    double lo[3] = {1e300, 1e300, 1e300}, hi[3] = {-1e300, -1e300, -1e300}; for (auto& pc : cells) for (auto& q : pc.P) for (int d = 0; d < 3; d++) { lo[d] = std::min(lo[d], q[d]); hi[d] = std::max(hi[d], q[d]); }
+    const double L = std::max({hi[0] - lo[0], hi[1] - lo[1], hi[2] - lo[2]}); const uint64_t base = hash_combine(hash_combine(a.seed, (uint64_t)i), 0xC14ULL);
+    auto micro = [&](int k) { Rng mg(a.seed, (uint64_t)i, 0x150 + (uint64_t)k); std::array<double, 3> d = {mg.normal(), mg.normal(), mg.normal()}; double n = std::sqrt(d[0] * d[0] + d[1] * d[1] + d[2] * d[2]); for (auto& x : d) x *= 1e-11 * L / n; return d; };
+    auto plus = [&](const std::array<double, 3>& u, const std::array<double, 3>& w) { return std::array<double, 3>{u[0] + w[0], u[1] + w[1], u[2] + w[2]}; };
+    const std::array<double, 3> zero = {0, 0, 0};
+    InitState ref = init_run(cells, type_ids, zero, 0, 0, sp, types, path, base);
+    cs.obs.s("shapes", fams).i("cells_in_file", ncell).d("l_min", lmin).d("lmin_over_size", rho).d("L", L).s("reference_outcome", ref.outcome);
+    if (ref.outcome != "cells" && ref.outcome != "initialization_exception") { cs.v = "skip"; cs.msg = "reference initialisation: " + ref.outcome; return cs.line(); }
+    InitState r1 = init_run(cells, type_ids, micro(1), 1, 1e-13, sp, types, path, base), r2 = init_run(cells, type_ids, micro(2), 2, 1e-13, sp, types, path, base);
+    const double condX = 1e-10 * L, tolX = 1e-9 * L; const double s1 = init_compare(ref, r1), s2 = init_compare(ref, r2);
+    if (s1 < 0 || s2 < 0 || std::max(s1, s2) > condX) { cs.v = "skip"; cs.msg = "ill-conditioned reference: the reconstruction of noise twins of the input (1e-13 relative, shifted by 1e-11 L) already differs"; cs.obs.b("ill_conditioned", true); return cs.line(); }
+    long compared = 0, inconclusive = 0, nodes = 0; double maxdev = 0; std::string kinds; for (auto& u : ref.used) for (char x : u) nodes += x ? 1 : 0;
+    const int ntr = (int)a.geti("translations", 3);
+    for (int k = 0; k < ntr && cs.v != "viol"; k++) {
+        const int kind = g.range(0, 6); std::array<double, 3> t; std::string kn;
+        auto dir = [&]() { std::array<double, 3> d = {g.normal(), g.normal(), g.normal()}; double n = std::sqrt(d[0] * d[0] + d[1] * d[1] + d[2] * d[2]); for (auto& x : d) x /= n; return d; };
+        if (kind == 0) { auto d = dir(); const double m = g.uni(0.01, 0.9) * lmin; t = {d[0] * m, d[1] * m, d[2] * m}; kn = "below_lmin"; }
+        else if (kind == 1) { t = {lmin * (g.coin() ? 1 : -1), 0, 0}; if (g.coin()) t = {0, 1.7 * lmin, -lmin}; kn = "exactly_one_grid_cell"; }
+        else if (kind == 2) { auto d = dir(); const double m = g.uni(1, 40) * lmin; t = {d[0] * m, d[1] * m, d[2] * m}; kn = "several_lmin"; }
+        else if (kind == 3) { t = {-(lo[0] + hi[0]) / 2 + g.uni(-0.3, 0.3) * L, -(lo[1] + hi[1]) / 2 + g.uni(-0.3, 0.3) * L, -(lo[2] + hi[2]) / 2}; kn = "across_origin"; }
+        else if (kind == 4) { auto d = dir(); const double m = g.uni(8, 32) * L; t = {d[0] * m, d[1] * m, d[2] * m}; kn = "far_up_to_32_extents"; }
+        else if (kind == 5) { const double u = std::ldexp(1.0, (int)std::floor(std::log2(L)) - g.range(1, 8)); t = {u * (g.coin() ? 1 : -1), u, 0}; kn = "binary_exact"; }
+        else { auto d = dir(); const double m = g.uni(1, 8) * L; t = {d[0] * m, d[1] * m, d[2] * m}; kn = "few_extents"; }
+        kinds += kn + ","; compared++;
+        InitState tr = init_run(cells, type_ids, t, 0, 0, sp, types, path, base); const double d = init_compare(ref, tr);
+        if (d >= 0 && d <= tolX) { maxdev = std::max(maxdev, d / tolX); continue; }
+        InitState t1 = init_run(cells, type_ids, plus(t, micro(3)), 1, 1e-13, sp, types, path, base), t2 = init_run(cells, type_ids, plus(t, micro(4)), 2, 1e-13, sp, types, path, base);
+        const double a1 = init_compare(tr, t1), a2 = init_compare(tr, t2);
+        if (a1 < 0 || a2 < 0 || std::max(a1, a2) > condX) { inconclusive++; continue; }
+        const double tmag = std::sqrt(t[0] * t[0] + t[1] * t[1] + t[2] * t[2]);
+        if (d < 0 && init_compare(ref, t1) < 0 && init_compare(ref, t2) < 0 && init_compare(r1, tr) < 0 && init_compare(r2, tr) < 0)
+            cs.viol("translated_input_reconstructed_differently:structure:" + kn, "the initial triangulation of the input translated by " + std::to_string(tmag / lmin) + " l_min (" + std::to_string(tmag / L) + " tissue extents) ends with another outcome / node count / connectivity (reference: " + ref.outcome + " with " + std::to_string(nodes) + " nodes, translated: " + tr.outcome + "), although the reference and the translated input are each stable under noise and the random generators are seeded alike");
+        else if (d > tolX && std::min({init_compare(ref, t1), init_compare(ref, t2), init_compare(r1, tr), init_compare(r2, tr)}) > tolX)
+            cs.viol("translated_input_reconstructed_differently:positions:" + kn, "the nodes of the initial triangulation of the translated input deviate by " + std::to_string(d / L) + " L from the translated nodes of the reference");
+        else inconclusive++;
+    }
+    cs.nontrivial = compared > 0 && ref.outcome == "cells"; cs.sig = hash_combine(hash_combine(hash_str(fams), (uint64_t)nodes), hash_double(lmin));
+    cs.obs.i("nodes", nodes).i("translations_compared", compared).i("translations_inconclusive", inconclusive).d("max_position_deviation_over_tolerance", maxdev).s("kinds", kinds).b("ill_conditioned", false);
+    return cs.line();
+}
+static int cmd_translate_init(const Args& a) {
+    Agg agg; agg.max_samples = 6; char cwd[4096]; if (!getcwd(cwd, sizeof cwd)) { perror("getcwd"); return 2; }
+    for (long i = a.first; i < a.first + a.cases; i++) {
+        if (!a.mine(i)) continue;
+        const std::string path = std::string(cwd) + "/c14_input_" + std::to_string((long)getpid()) + "_" + std::to_string(i) + ".vtk";
+        IsoResult r = run_isolated([&]() { return translate_init_case(a, i, path); }, a.getd("cpu_limit", 900), a.getd("cpu_limit", 900) * 3); unlink(path.c_str()); agg.evaluations++;
+        if (!r.completed) { emit(crash_line(i, r)); agg.bin(r.timeout ? "timeout" : "crash"); continue; }
+        const std::string& L = r.line;
+        auto num = [&](const std::string& k) -> long { size_t p = L.find("\"" + k + "\":"); if (p == std::string::npos) return 0; return atol(L.c_str() + p + k.size() + 3); };
+        auto dbl = [&](const std::string& k) -> double { size_t p = L.find("\"" + k + "\":"); if (p == std::string::npos) return 0; return atof(L.c_str() + p + k.size() + 3); };
+        auto str = [&](const std::string& k) -> std::string { size_t p = L.find("\"" + k + "\":\""); if (p == std::string::npos) return ""; size_t s0 = p + k.size() + 4; return L.substr(s0, L.find('"', s0) - s0); };
+        agg.bin("init_translations_compared", num("translations_compared")); agg.bin("init_translations_inconclusive", num("translations_inconclusive")); agg.bin("init_nodes", num("nodes")); agg.bin("init_reference:" + str("reference_outcome"));
+        { std::string ks = str("kinds"); size_t p0 = 0; while (p0 < ks.size()) { size_t q = ks.find(',', p0); if (q == std::string::npos) break; agg.bin("init_translation:" + ks.substr(p0, q - p0)); p0 = q + 1; } }
+        if (L.find("\"ill_conditioned\":true") != std::string::npos) agg.bin("init_ill_conditioned_references");
+        agg.maxi("init_max_position_deviation_over_tolerance", dbl("max_position_deviation_over_tolerance"));
+        if (L.find("\"v\":\"skip\"") != std::string::npos) { agg.skipped++; continue; }
+        if (L.find("\"nt\":true") != std::string::npos) { agg.nontrivial++; size_t p = L.find("\"sig\":\""); if (p != std::string::npos) agg.sigs[strtoull(L.substr(p + 7, 16).c_str(), nullptr, 16)] = 1; }
+        if (L.find("\"v\":\"viol\"") != std::string::npos) { agg.viol_total++; if (agg.viol_total <= (long)agg.max_viol) emit(L); }
+        else if (agg.samples.size() < agg.max_samples && L.find("\"nt\":true") != std::string::npos) agg.samples.push_back(L);
+    }
+    agg.flush(a.shard_i);
+    return 0;
+}
+static Reg r_translate_init("translate_init", cmd_translate_init);
+
 }  // namespace
